@@ -143,12 +143,20 @@ def run_case(cs):
     else:
         tree = world.gen_tree(rng, max_files=rng.choice([2, 6, 12]), max_dirs=rng.choice([0, 2, 5]), distinct=rng.random() < 0.5)
     d = cs.dir()
-    root = os.path.join(d, "R" + world.gen_name(rng, rng.choice(["plain", "space", "uni"]), ext=False))
+    root = os.path.join(d, world.root_name(rng))
     world.write_tree(root, tree)
     os.makedirs(root, exist_ok=True)
     dest = os.path.join(d, "dest")
+    if shape == "normal" and rng.random() < 0.2:
+        # a chain of nested histories (depth 3) so that -dr, -sf and references act across several levels
+        for pth in ("ch", "ch/mid", "ch/mid/in"):
+            tree[pth] = None
+            tree[pth + "/c.bin"] = pth.encode() + rng.randbytes(3)
+        world.write_tree(root, tree)
     subdirs = [x for x in tree if tree[x] is None]
     nested = rng.sample(subdirs, min(len(subdirs), rng.choice([0, 0, 1, 2, 3])))
+    if "ch/mid/in" in tree:
+        nested = list(dict.fromkeys(nested + ["ch/mid/in", "ch/mid", "ch"]))
     for n in sorted(nested, key=lambda s: -s.count("/")) if rng.random() < 0.5 else nested:
         b = [snap.snap(root, with_mtime=False)]
         r = drive.run("create", [os.path.join(root, n)] + world.fmt_args(world.gen_formats(rng)))
@@ -221,6 +229,15 @@ def run_case(cs):
                     continue
                 os.rename(os.path.join(root, f), os.path.join(root, new))
             oc = ["dr"]
+            if dirs and rng.random() < 0.4:
+                # rename a folder in place (it may be the root folder of a nested history, at any depth)
+                dsel = rng.choice(sorted(dirs, key=lambda x: -x.count("/"))[: max(1, len(dirs) // 2)])
+                newd = dsel + "-renamed%d" % step
+                if os.path.isdir(os.path.join(root, dsel)) and not os.path.exists(os.path.join(root, newd)):
+                    os.rename(os.path.join(root, dsel), os.path.join(root, newd))
+                    oc.append("dirrename")
+                    if dsel in nested:
+                        oc.append("historyroot")
             r = drive.run("create", [root, "-dr"] + world.fmt_args(world.gen_formats(rng)))
         else:
             oc = ["flatten"]
